@@ -686,6 +686,59 @@ fn t_reader_borrowed(rng: &mut Rng, stats: &mut Stats) {
 	}
 }
 
+#[derive(serde_derive::Deserialize, Debug, PartialEq)]
+struct CowRec<'a> {
+	#[serde(borrow)]
+	a: Cow<'a, str>,
+	#[serde(borrow, with = "serde_bytes")]
+	b: Cow<'a, [u8]>,
+	#[serde(borrow)]
+	c: Cow<'a, str>,
+	d: Option<String>,
+	e: i64,
+}
+
+/// a borrowing seed handed to `deserialize_seed_next` of a reader built over an `impl BufRead`: the lifetime is the
+/// caller's choice (here: 'static), so whatever comes back must not point into the reader (scratch space,
+/// decompression buffers); values are kept across the loading of further blocks and past the reader's drop
+fn t_reader_seed_borrow(rng: &mut Rng, stats: &mut Stats) {
+	let schema: Schema = REC_JSON.parse().unwrap();
+	let vals: Vec<Owned> = (0..2 + rng.usize(4)).map(|_| gen_owned(rng)).collect();
+	let (codec, _) = pick_codec(rng);
+	let mut config = SerializerConfig::new(&schema);
+	let mut w = WriterBuilder::new(&mut config).compression(codec).approx_block_size(*rng.pick(&[0u32, 1, 24, 64 * 1024])).build(Vec::new()).unwrap();
+	for v in &vals {
+		w.serialize(v).unwrap();
+	}
+	let file = w.into_inner().unwrap();
+	drop(schema);
+	stats.op("read-n:seed-with-borrowing-target-over-bufread");
+	let mut kept: Vec<CowRec<'static>> = vec![];
+	if rng.bool() {
+		let mut reader = Reader::from_reader(std::io::Cursor::new(file.clone())).unwrap();
+		while let Some(v) = reader.deserialize_seed_next(std::marker::PhantomData::<CowRec<'static>>).unwrap_or_else(|e| mismatch!("seed read: {e}")) {
+			kept.push(v);
+		}
+		stats.op("drop:reader-while-seed-values-live");
+		drop(reader);
+	} else {
+		let mut reader = Reader::from_reader(std::io::BufReader::with_capacity(1 + rng.usize(40), std::io::Cursor::new(file.clone()))).unwrap();
+		while let Some(v) = reader.deserialize_seed_next(std::marker::PhantomData::<CowRec<'static>>).unwrap_or_else(|e| mismatch!("seed read: {e}")) {
+			kept.push(v);
+		}
+		drop(reader);
+	}
+	drop(file);
+	if kept.len() != vals.len() {
+		mismatch!("seed read yielded {} values, wrote {}", kept.len(), vals.len());
+	}
+	for (k, v) in kept.iter().zip(&vals) {
+		if k.a != v.a || k.b[..] != v.b[..] || k.c != v.c || k.d != v.d || k.e != v.e {
+			mismatch!("value read through a borrowing seed changed after the reader moved on: {k:?} vs {v:?}");
+		}
+	}
+}
+
 /// several threads use one schema at once; results must equal the sequential ones
 fn t_threads(rng: &mut Rng, stats: &mut Stats) {
 	let ty = gen_small_schema(rng);
@@ -791,8 +844,11 @@ fn main() {
 		let mut rng = Rng::for_run(seed, "C10", i);
 		let t = match mode {
 			"threads-only" => 5,
-			"no-threads" => rng.below(5),
-			_ => rng.below(7),
+			"no-threads" => match rng.below(6) {
+				5 => 7,
+				x => x,
+			},
+			_ => rng.below(9),
 		};
 		let name = match t {
 			0 => {
@@ -814,6 +870,10 @@ fn main() {
 			4 => {
 				t_reader_borrowed(&mut rng, &mut stats);
 				"reader-borrowed"
+			}
+			7 | 8 => {
+				t_reader_seed_borrow(&mut rng, &mut stats);
+				"reader-seed-borrow"
 			}
 			_ => {
 				t_threads(&mut rng, &mut stats);
